@@ -16,7 +16,6 @@ type (
 	Node  = engine.Node
 )
 
-
 // anchor resolves a first-party function; an unresolved anchor is an undecided
 // obligation (the rule can no longer see its subject), never a silent pass.
 func anchor(c *Check, rule, pkgRel, recv, name string) *ssa.Function {
